@@ -4,3 +4,4 @@ set -e
 cd "$(dirname "$0")/harness"
 export CARGO_NET_OFFLINE=true
 cargo build --release --offline
+cargo build --offline -p deep
